@@ -1,4 +1,5 @@
 import DC.Prelude.Hex
+import DC.Spec.PrecSpec
 import DC.Model.BufioIO
 
 /-! Dispatch table of the line-protocol driver. A handler gets the op and its arguments and
@@ -7,7 +8,8 @@ namespace DC.Driver
 
 def handlers : List (String → List String → Option String) := [
   fun op args => if op == "ping" then some ("pong " ++ " ".intercalate args) else none,
-  DC.Bufio.IO.handle
+  DC.Bufio.IO.handle,
+  DC.Spec.PrecSpec.handle   -- c08
 ]
 
 def dispatch (line : String) : String :=
